@@ -14,7 +14,7 @@
 //! strings are valid POSIX rules, the system zone's name and the mtime of /etc/localtime.
 use crate::ctx::*;
 use chrono::__verif_tz as vt;
-use chrono::{Local, MappedLocalTime, NaiveDate, NaiveDateTime, TimeZone};
+use chrono::{Local, MappedLocalTime, NaiveDate, NaiveDateTime, TimeZone, Utc};
 use std::collections::BTreeMap;
 use std::io::Read;
 use std::os::unix::ffi::OsStrExt;
@@ -302,6 +302,9 @@ fn fixtures() -> Fx {
         ("<12345>-1:01", 3660),
         ("<67890>1:02", -3720),
         ("<aZ+-9>-3:03", 10980),
+        // the largest offsets a rule may state (F32: 24 h and more are refused, see the garbage list)
+        ("AAA23:59:59", -86399),
+        ("XXX-23:59:59", 86399),
     ];
     let sysname = system_zone_name();
     let mtime = std::fs::symlink_metadata(LOCALTIME)
@@ -348,6 +351,9 @@ impl Fx {
             "XYZ-25", ":XYZ-3", " Asia/Tokyo", "Asia/Tokyo ", "asia/tokyo", "::Asia/Tokyo",
             "XYZ-3,", "\u{e9}t\u{e9}", "localtimeX", "localtim", "Localtime", "localtime ", " localtime", "XYZ-3 4",
             "XY-3", "XYZ--3", "../../../nonexistent", ":../../../nonexistent",
+            // offsets of 24 h or more are not readable values (F32): like any other invalid rule they
+            // fall through to the system zone / UTC
+            "AAA24", "XXX-24:30", "AAA-24", "AAA24:00:00", "AAA-24:00:01",
         ] {
             p.push(mk(g.to_string(), "garbage", Some(self.sys_expect)));
         }
@@ -833,6 +839,34 @@ fn gen_timed(c: &mut Ctx, fx: &Fx, k: usize) -> Vec<St> {
     }
 }
 
+/// Finding F33 (repaired): two valid TZ values with the same `DefaultHasher::new()` hash
+/// (a46d3dde525f155a).  The cache used to remember that hash instead of the text, so a change from
+/// one to the other was never noticed on a thread that had converted before.
+const HASH_TWIN_A: (&str, i64) = ("<lVhnH9Y>-02<fch>,M3.2.0,M11.1.0", 7200);
+const HASH_TWIN_B: (&str, i64) = ("<MIa3-7z>-11<h7b>,M3.2.0,M11.1.0", 39600);
+
+fn default_hash(s: &str) -> u64 {
+    use std::hash::Hasher;
+    #[allow(deprecated)]
+    let mut h = std::collections::hash_map::DefaultHasher::new();
+    h.write(s.as_bytes());
+    h.finish()
+}
+
+/// directed histories with the colliding pair, each on ONE thread: a -> b, b -> a, a -> b -> a, and
+/// a -> b with a second thread started in between; every change must be honoured >= 1 s later
+fn hash_twin_histories() -> Vec<Vec<St>> {
+    use St::*;
+    let mk = |x: (&str, i64)| TzVal { v: Some(x.0.as_bytes().to_vec()), kind: "hash-twin", expect: Some(x.1) };
+    let (a, b) = (mk(HASH_TWIN_A), mk(HASH_TWIN_B));
+    vec![
+        vec![Set(a.clone()), Conv(0, false), Set(b.clone()), Wait(1100), Conv(0, false), Conv(0, true)],
+        vec![Set(b.clone()), Conv(0, true), Set(a.clone()), Wait(1100), Conv(0, true), Conv(0, false)],
+        vec![Set(a.clone()), Conv(0, false), Set(b.clone()), Wait(1100), Conv(0, true), Set(a.clone()), Wait(1100), Conv(0, false)],
+        vec![Set(a), Conv(0, true), Set(b), Spawn(1), Conv(1, false), Wait(1100), Conv(0, false), Conv(1, true)],
+    ]
+}
+
 /// a history that switches between two textual variants `x` -> `y`
 fn variant_history(c: &mut Ctx, x: &TzVal, y: &TzVal, shape: usize, timed: bool) -> Vec<St> {
     use St::*;
@@ -981,7 +1015,7 @@ fn direction_oracles(c: &mut Ctx, fx: &Fx) {
         let dts2 = dts.clone();
         // everything on one fresh thread: its cache is built now, under this TZ
         #[allow(deprecated)]
-        let got: Vec<(String, String, String, String)> = std::thread::spawn(move || {
+        let got: Vec<(String, String, String, String, String)> = std::thread::spawn(move || {
             dts2.iter()
                 .map(|d| {
                     (
@@ -1001,6 +1035,8 @@ fn direction_oracles(c: &mut Ctx, fx: &Fx) {
                                 MappedLocalTime::None => "none".to_string(),
                             },
                         ),
+                        // `DateTime<Utc>::with_timezone(&Local)` directly (what `Local::now` is made of)
+                        gs(|| Utc.from_utc_datetime(d).with_timezone(&Local), |x| format!("{} {}", x.offset().local_minus_utc(), x.naive_utc() == *d)),
                     )
                 })
                 .collect()
@@ -1031,6 +1067,7 @@ fn direction_oracles(c: &mut Ctx, fx: &Fx) {
                 c.op(&format!("lc.off ol {}", tail), &g.1);
                 c.op(&format!("lc.off fu {}", tail), &first(&g.2));
                 c.op(&format!("lc.off fl {}", tail), &first(&g.3));
+                c.op(&format!("lc.off wt {}", tail), &first(&g.4));
                 c.count(if want_u != want_l { "direction.model-ops.directions-differ" } else { "direction.model-ops.directions-agree" });
             }
             c.count(&format!("direction.local-result.{}", if want_l.starts_with("amb") { "ambiguous" } else if want_l == "none" { "none" } else { "single" }));
@@ -1045,6 +1082,9 @@ fn direction_oracles(c: &mut Ctx, fx: &Fx) {
             }
             if g.2 != format!("{} true", want_u) {
                 c.fail("C18 Local.from_utc_datetime does not keep the instant / use the zone's offset", &format!("TZ={:?} utc={} got {} want {}", tz, d, g.2, want_u));
+            }
+            if g.4 != format!("{} true", want_u) {
+                c.fail("C18 DateTime<Utc>::with_timezone(&Local) does not keep the instant / use the zone's offset", &format!("TZ={:?} utc={} got {} want {}", tz, d, g.4, want_u));
             }
             let want_fl = if want_l == "none" { "none".to_string() } else { format!("{} true", want_l) };
             if g.3 != want_fl {
@@ -1281,6 +1321,16 @@ pub fn run(c: &mut Ctx) {
     for _ in 0..c.n(6, 120) {
         hists.push(gen_family_history(c, &fx, true));
         c.count("timed.family-histories");
+    }
+    // finding F33 (repaired): the pair of values with equal DefaultHasher hash, both orders and a -> b -> a
+    {
+        let (ha, hb) = (default_hash(HASH_TWIN_A.0), default_hash(HASH_TWIN_B.0));
+        c.sample(&format!("hash twins: DefaultHasher {:016x} / {:016x} for {:?} / {:?}", ha, hb, HASH_TWIN_A.0, HASH_TWIN_B.0));
+        c.count(if ha == hb { "timed.hash-twin.DefaultHasher-equal" } else { "timed.hash-twin.DefaultHasher-differs(other std)" });
+        for h in hash_twin_histories() {
+            hists.push(h);
+            c.count("timed.hash-twin-histories");
+        }
     }
     let par = c.n(128, 64);
     run_children(c, &fx, hists, par);
